@@ -2,6 +2,7 @@ package c19
 
 import (
 	"fmt"
+	goruntime "runtime"
 	"sort"
 	"strings"
 	"sync"
@@ -120,6 +121,17 @@ func installTap(f *flow) *tap {
 	return t
 }
 
+var obsDeadFrames int
+
+func goroutineDump() string {
+	buf := make([]byte, 1<<20)
+	n := goruntime.Stack(buf, true)
+	if n > 60000 {
+		n = 60000
+	}
+	return "# goroutine dump at the time the watchdog fired\n" + string(buf[:n])
+}
+
 type frameRow struct {
 	key     portKey
 	in, out int // packet ids, -1 = nil
@@ -203,7 +215,13 @@ func framesOracle(t *tap, sess int, rows []frameRow) (class, what string) {
 		}
 		if ans >= 0 {
 			if k >= len(answs[r.key]) || answs[r.key][k] != ans {
-				return "frame-cross-port", fmt.Sprintf("frame %d on port %v (%s): request #%d (packet %d) is paired with packet %d, but the answers on that port were %v", i, r.key, t.names[r.key], k, req, ans, answs[r.key])
+				class := "frame-cross-port"
+				for _, p := range answs[r.key] {
+					if p == ans {
+						class = "frame-wrong-answer-of-same-port"
+					}
+				}
+				return class, fmt.Sprintf("frame %d on port %v (%s): request #%d (packet %d) is paired with packet %d, but the answers on that port were %v", i, r.key, t.names[r.key], k, req, ans, answs[r.key])
 			}
 		} else if k < len(answs[r.key]) {
 			return "frame-incomplete", fmt.Sprintf("frame %d on port %v (%s): request #%d was answered (packet %d) but the frame has no answer", i, r.key, t.names[r.key], k, answs[r.key][k])
@@ -219,7 +237,17 @@ func framesOracle(t *tap, sess int, rows []frameRow) (class, what string) {
 
 // framesCase runs one workflow with the agent attached and compares Agent.Frames with the model
 // (fed the harness's hook log) and with the oracle.
-func framesCase(c *lib.Ctx, fs flowSpec, nsess int, ops []op, sc *lib.Script, fails *[]lib.OracleFail) (key string) {
+func framesCase(c *lib.Ctx, fs flowSpec, nsess int, ops []op, early bool, sc *lib.Script, fails *[]lib.OracleFail) (key string) {
+	ok, p := lib.WithTimeout(12*watchdog, func() { key = framesCaseBody(c, fs, nsess, ops, early, sc, fails) })
+	if !ok || p != nil {
+		*fails = append(*fails, lib.OracleFail{Class: "hang", What: fmt.Sprintf("%v: the frames case did not finish within %v (panic=%v): a call into the agent or the workflow never returned", fs, 12*watchdog, p), Replay: goroutineDump()})
+	}
+	return key
+}
+
+// early: session 0 is terminated with its requests still unanswered (its frames are read just
+// before); what the agent then still holds for the dead process is reported as an observation.
+func framesCaseBody(c *lib.Ctx, fs flowSpec, nsess int, ops []op, early bool, sc *lib.Script, fails *[]lib.OracleFail) (key string) {
 	agent := runtime.NewAgent()
 	f, err := build(fs, agent)
 	if err != nil {
@@ -247,7 +275,11 @@ func framesCase(c *lib.Ctx, fs flowSpec, nsess int, ops []op, sc *lib.Script, fa
 	for _, o := range ops {
 		r.exec(o)
 	}
-	r.drain()
+	if early {
+		r.drain(0)
+	} else {
+		r.drain()
+	}
 	trace = append(trace, r.log...)
 	replay := func() string { return strings.Join(trace, "\n") }
 	for _, w := range r.fails {
@@ -266,8 +298,13 @@ func framesCase(c *lib.Ctx, fs flowSpec, nsess int, ops []op, sc *lib.Script, fa
 		sc.Op(line, "ok")
 		trace = append(trace, line)
 	}
-	cross := false
+	cross, piped := false, false
 	for si, sr := range r.ss {
+		if early && si == 0 {
+			// stopped in mid-flight: the last answer may still be travelling upstream, so this
+			// session's frames are not at rest and are not compared (the drained sessions are)
+			continue
+		}
 		rows := t.readFrames(f, agent, sr.s.proc)
 		sc.Op(fmt.Sprintf("nframes %d", si), fmt.Sprint(len(rows)))
 		for _, k := range t.keys {
@@ -279,10 +316,19 @@ func framesCase(c *lib.Ctx, fs flowSpec, nsess int, ops []op, sc *lib.Script, fa
 		if class, what := framesOracle(t, si, rows); class != "" {
 			*fails = append(*fails, lib.OracleFail{Class: class, What: fs.String() + ": " + what, Replay: replay()})
 		}
-		// interleaving across ports of one symbol in this case?
+		// interleaving across ports of one symbol in this case? several requests open on one port?
 		last := map[int]portKey{}
+		open := map[portKey]int{}
 		for _, e := range log {
 			if e.sess == si {
+				if e.inb == (e.key.in >= 0) {
+					open[e.key]++
+					if open[e.key] >= 2 {
+						piped = true
+					}
+				} else {
+					open[e.key]--
+				}
 				if p, ok := last[e.key.sym]; ok && p != e.key && (p.in >= 0) == (e.key.in >= 0) {
 					cross = true
 				}
@@ -293,12 +339,29 @@ func framesCase(c *lib.Ctx, fs flowSpec, nsess int, ops []op, sc *lib.Script, fa
 	r.closeSessions()
 	for si, sr := range r.ss {
 		n := len(agent.Frames(sr.s.proc.ID()))
+		if early && si == 0 {
+			// Terminated with requests in flight: the agent's exit hook deletes frames[proc], the
+			// drop answers that Reader.Close / the nodes then still send through the hooks re-create
+			// the entry, and nothing deletes it again (until Agent.Close). Not part of C19's
+			// statement (C05 owns "nothing outlives the process"): recorded, not judged.
+			c.Hit("frames-early-exit-cases")
+			if n > 0 {
+				c.Hit("obs-frames-recorded-for-terminated-process")
+				obsDeadFrames += n
+				c.Extra["observation_frames_held_for_terminated_processes"] = obsDeadFrames
+				c.Extra["observation_frames_held_for_terminated_processes_note"] = "Agent.Frames(proc) of processes terminated with unanswered requests: the exit hook deleted the entry, later drop answers re-created it (leak until Agent.Close); observation only, C05's subject"
+			}
+			continue
+		}
 		sc.Op(fmt.Sprintf("exit %d", si), "ok")
 		sc.Op(fmt.Sprintf("nframes %d", si), fmt.Sprint(n))
 	}
 	c.Hit("frames-flow-" + fs.name)
 	if cross {
 		c.Hit("frames-interleaved-ports-of-one-symbol")
+	}
+	if piped {
+		c.Hit("frames-several-requests-open-on-one-port")
 	}
 	if sampled["frames"] < 2 {
 		sampled["frames"]++
